@@ -127,7 +127,17 @@ Plain2 == {X \in EnumsPlain : Len(X.variants) = 2}
 EnumsEvolved ==
   UNION {{EvoVariant(E, i) : i \in {j \in 1..2 : HasFields(E, j)}} : E \in Plain2}
   \cup UNION {{EvoVariantOpt(E, i) : i \in {j \in 1..2 : HasFields(E, j) /\ E.variants[j].fields[1].t.k = "opt"}} : E \in Plain2}
-EnumDecls == EnumsPlain \cup EnumsTransient \cup EnumsEvolved
+\* every evolution pattern of the struct universe (DeclsD), carried by a tuple variant (fields are
+\* then called field0, field1, ..) and by a struct variant, next to a unit variant
+RenameTuple(X, n) == IF \E i \in 1..Len(X.fields) : X.fields[i].n = n
+                     THEN VariantFieldName((CHOOSE i \in 1..Len(X.fields) : X.fields[i].n = n) - 1) ELSE n
+VariantOf(X, shape) ==
+  VariantT(VName(65), shape,
+           [i \in 1..Len(X.fields) |-> IF shape = "tuple" THEN [X.fields[i] EXCEPT !.n = VariantFieldName(i - 1)] ELSE X.fields[i]],
+           [j \in 1..Len(X.steps) |-> IF shape = "tuple" THEN [X.steps[j] EXCEPT !.n = RenameTuple(X, @)] ELSE X.steps[j]], FALSE)
+EnumsFromStructs == {EnumT(<<VariantT(VName(67), "unit", <<>>, <<>>, FALSE), VariantOf(X, sh)>>, FALSE) :
+                       X \in {Y \in DeclsD : \A i \in 1..Len(Y.fields) : ~Y.fields[i].tr}, sh \in {"tuple", "struct"}}
+EnumDecls == EnumsPlain \cup EnumsTransient \cup EnumsEvolved \cup EnumsFromStructs
 
 AllDecls == StructDecls \cup EnumDecls
 
